@@ -270,8 +270,8 @@ type econtroller struct {
 	self    uint64
 	trace   []string
 	hung    bool
-	lastCat *lungo.Catalog // published catalog at the previous observation
-	pubs    int            // number of publications observed
+	lastCat *lungo.Catalog  // published catalog at the previous observation
+	pubs    int             // number of publications observed
 	ignored map[uint64]bool // goroutines that existed before the scenario (leaked by earlier ones)
 }
 
@@ -697,13 +697,32 @@ func runEngineScenario(sc *escenario, r *rng) eoutcome {
 func timed(d time.Duration, fn func()) (time.Duration, bool) {
 	done := make(chan struct{})
 	t0 := time.Now()
-	go func() { defer close(done); fn() }()
+	go func() {
+		defer close(done)
+		defer func() {
+			if p := recover(); p != nil {
+				timedPanic.Store(strings.ReplaceAll(fmt.Sprint(p), " ", "_"))
+			}
+		}()
+		fn()
+	}()
 	select {
 	case <-done:
 		return time.Since(t0), true
 	case <-time.After(d):
 		return d, false
 	}
+}
+
+// timedPanic holds the value of a panic that escaped a call made by timed
+// ("no call panics" is part of C16).
+var timedPanic atomic.Value
+
+func takeTimedPanic() string {
+	if v, ok := timedPanic.Swap("").(string); ok {
+		return v
+	}
+	return ""
 }
 
 // engineEpilogue: the model-free part of C16 on a finished scenario — a
@@ -716,6 +735,7 @@ func engineEpilogue(engine *lungo.Engine, base int) (string, int64) {
 // strictSnap: no background writer can be active (the expiry goroutine never
 // ticks), so e.txn and the token must already be free before the probe.
 func engineEpilogueOpt(engine *lungo.Engine, base int, strictSnap bool) (string, int64) {
+	takeTimedPanic()
 	var probe time.Duration
 	snap := lungo.VerifSnapshot(engine)
 	if snap.Alive {
@@ -731,6 +751,9 @@ func engineEpilogueOpt(engine *lungo.Engine, base int, strictSnap bool) (string,
 			}
 		})
 		probe = d
+		if p := takeTimedPanic(); p != "" {
+			return "PANIC in the probe write: " + p, d.Microseconds()
+		}
 		if !ok {
 			return "WEDGED probe write did not proceed", d.Microseconds()
 		}
@@ -740,6 +763,9 @@ func engineEpilogueOpt(engine *lungo.Engine, base int, strictSnap bool) (string,
 	}
 	if _, ok := timed(3*time.Second, func() { engine.Close() }); !ok {
 		return "CLOSE-HANG", probe.Microseconds()
+	}
+	if p := takeTimedPanic(); p != "" {
+		return "PANIC in Close: " + p, probe.Microseconds()
 	}
 	var bad []string
 	_, ok := timed(2*time.Second, func() {
@@ -758,6 +784,9 @@ func engineEpilogueOpt(engine *lungo.Engine, base int, strictSnap bool) (string,
 		engine.Abort(lungo.NewTransaction(lungo.NewCatalog()))
 		engine.Close()
 	})
+	if p := takeTimedPanic(); p != "" {
+		return "PANIC in a call after Close: " + p, probe.Microseconds()
+	}
 	if !ok {
 		return "NOTCLOSED a call after Close did not return", probe.Microseconds()
 	}
@@ -919,6 +948,13 @@ func engineWorkerMain() {
 		c, err := parseSx(in.Text())
 		if err != nil {
 			fmt.Fprintln(w, "BAD-CASE")
+		} else if c.isL && len(c.list) == 4 && c.list[0].atom == "stress" {
+			seed, _ := strconv.ParseUint(c.list[1].atom, 10, 64)
+			g, _ := strconv.Atoi(c.list[2].atom)
+			n, _ := strconv.Atoi(c.list[3].atom)
+			fmt.Fprintln(w, in.Text()+enginePackSep+engineStress(seed, g, n))
+		} else if c.isL && len(c.list) > 0 && c.list[0].atom == "serial" {
+			fmt.Fprintln(w, serialPacked(c))
 		} else {
 			fmt.Fprintln(w, enginePacked(c))
 		}
@@ -940,6 +976,9 @@ var (
 func engineViaWorker(caseText string) string {
 	if os.Getenv("VERIF_ENGINE_INPROC") != "" {
 		c, _ := parseSx(caseText)
+		if c.isL && len(c.list) > 0 && c.list[0].atom == "serial" {
+			return serialPacked(c)
+		}
 		return enginePacked(c)
 	}
 	engineWorkerMu.Lock()
@@ -992,7 +1031,7 @@ func engineViaWorker(caseText string) string {
 			return "HANG worker did not answer"
 		}
 	}
-	return "WORKER-DIED"
+	return "CRASH the worker process died twice on this case (fatal runtime error in the engine?)"
 }
 
 // ---- family ----
